@@ -356,8 +356,18 @@ def run_property(pid, tier, seed, replay=None):
 
     # ---- report disagreements (first few distinct ones)
     reported = 0
+    # A module whose oracle() DECIDES the property on a case (ORACLE_DECIDES = True) may have a model
+    # that is finer than the property (e.g. the order of random draws in C17).  A disagreement on
+    # which the property's own oracle is satisfied is then not a failing input: it is reported
+    # only if no failing input exists among all cases, and then with no-failing-input-found.
+    oracle_decides = bool(getattr(mod, 'ORACLE_DECIDES', False))
+    failing_oracle_idx = set(i for i, _ in oracle_fail)
+    model_only = []
     for i in mism:
         c = cases[i]
+        if oracle_decides and i not in failing_oracle_idx:
+            model_only.append(i)
+            continue
         km = known_match(pid, c)
         if km:
             known_lines.append('KNOWN-FINDING: property=%s %s' % (pid, km.get('what', '')))
@@ -392,6 +402,18 @@ def run_property(pid, tier, seed, replay=None):
             'case': c, 'impl_observation': observations[i]})
         violations.append((path, ''))
         reported += 1
+
+    if model_only and not violations and not known_lines:
+        i = model_only[0]
+        obs, term, _ = eval_case(cases[i])
+        expected, _ = coq_eval(imports, 'model_out %s' % term)
+        path = write_replay('corr%d' % i, {
+            'what': 'the correspondence corr:%s no longer checks (implementation and model disagree on %d cases) '
+                    'but the property oracle is satisfied by the implementation on every one of the %d cases explored' % (
+                        pid, len(model_only), len(cases)),
+            'failing': 'corr:%s' % pid, 'first_disagreeing_case': cases[i], 'case': cases[i],
+            'impl_observation': obs, 'model_expected_coq': expected, 'theorems': obl['theorems']})
+        violations.append((path, ' no-failing-input-found'))
 
     extra = []
     if hasattr(mod, 'extra_checks') and not replay:
